@@ -87,3 +87,11 @@ func verifStored(scope *ReferenceScope, name string) *View {
 	return v
 }
 
+
+func verifIdOf(p value.Primary) int {
+	if value.IsNull(p) {
+		return -1
+	}
+	return int(p.(*value.Integer).Raw())
+}
+
